@@ -324,3 +324,197 @@ func c16r5(c *Ctx) {
 		}
 	}
 }
+
+// hasPriceComponent: the number v contains a component priced by the named schedule field on every way it is computed —
+// as a linear form, as a φ all of whose alternatives do, or as the result of a module function all of whose returns do.
+func hasPriceComponent(e *Env, v ssa.Value, field string, depth int) bool {
+	if depth > 4 {
+		return false
+	}
+	if strings.Contains(e.LE(v).String(), field) {
+		return true
+	}
+	switch x := v.(type) {
+	case *ssa.Phi:
+		if len(x.Edges) == 0 {
+			return false
+		}
+		for _, ed := range x.Edges {
+			if ed == ssa.Value(x) {
+				continue
+			}
+			if !hasPriceComponent(e, ed, field, depth+1) {
+				return false
+			}
+		}
+		return true
+	case *ssa.BinOp:
+		if x.Op == token.ADD {
+			return hasPriceComponent(e, x.X, field, depth+1) || hasPriceComponent(e, x.Y, field, depth+1)
+		}
+	case *ssa.Call:
+		sc := x.Call.StaticCallee()
+		if sc == nil || len(sc.Blocks) == 0 || sc.Pkg == nil || !strings.HasPrefix(sc.Pkg.Pkg.Path(), modPath) || e.depth >= maxDepth {
+			return false
+		}
+		sub := e.Sub(x, sc)
+		rets := returnsOf(sc)
+		for _, r := range rets {
+			if len(r.Results) == 0 || !hasPriceComponent(sub, retval(r, 0), field, depth+1) {
+				return false
+			}
+		}
+		return len(rets) > 0
+	}
+	return false
+}
+
+// c16r7: "stored bytes for … key-value saves": SaveKeyValue charges every listed pair its persist price
+// (len(key)+len(value))·PersistPerByte — also a pair whose value turns out to be what is stored already. In the loop over
+// the pairs no turn reaches the next one without having added a PersistPerByte component to the gas that is charged; a
+// charge moved behind the "unchanged value" shortcut makes such pairs free.
+func c16r7(c *Ctx) {
+	const rule = "C16-R7"
+	c.Rule(rule, "SaveKeyValue adds the persist price of every listed pair: no turn of the pair loop reaches the next one uncharged", 1)
+	r, ok := c.P.RegByName()["SaveKeyValue"]
+	if !ok || r.Entry == nil {
+		c.Anchor(rule, "entry point of SaveKeyValue")
+		return
+	}
+	fn := r.Entry
+	e := c.P.Env(fn)
+	// charge sites: additions whose value has a PersistPerByte component
+	charges := map[*ssa.BasicBlock]bool{}
+	for _, b := range fn.Blocks {
+		for _, in := range b.Instrs {
+			bo, ok := in.(*ssa.BinOp)
+			if !ok || bo.Op != token.ADD || !isUnsignedT(bo.Type()) {
+				continue
+			}
+			px, py := hasPriceComponent(e, bo.X, "PersistPerByte", 0), hasPriceComponent(e, bo.Y, "PersistPerByte", 0)
+			if (px || py) && !(px && py) {
+				charges[b] = true // the step that brings the component in (not a later sum that merely carries it)
+			}
+		}
+	}
+	// … and calls of helpers that add the component on every path to a successful return (the charge moved into a per-pair
+	// step of a split execution)
+	var chargesAlways func(f *ssa.Function, depth int) bool
+	chargesAlways = func(f *ssa.Function, depth int) bool {
+		if f == nil || len(f.Blocks) == 0 || depth > 3 || !c.P.InPkgs(f, "builtInFunctions") {
+			return false
+		}
+		fe := c.P.Env(f)
+		bar := map[ssa.Instruction]bool{}
+		for _, b := range f.Blocks {
+			for _, in := range b.Instrs {
+				switch x := in.(type) {
+				case *ssa.BinOp:
+					if x.Op == token.ADD && isUnsignedT(x.Type()) {
+						px, py := hasPriceComponent(fe, x.X, "PersistPerByte", 0), hasPriceComponent(fe, x.Y, "PersistPerByte", 0)
+						if (px || py) && !(px && py) {
+							bar[in] = true
+						}
+					}
+				case *ssa.Call:
+					if sc := x.Call.StaticCallee(); sc != nil && sc != f && chargesAlways(sc, depth+1) {
+						bar[in] = true
+					}
+				}
+			}
+		}
+		if len(bar) == 0 {
+			return false
+		}
+		for _, r := range returnsOf(f) {
+			if lastIsError(f) && !isSuccessReturn(r) {
+				continue
+			}
+			if bar[f.Blocks[0].Instrs[0]] {
+				continue
+			}
+			if reachesAvoiding(f, f.Blocks[0].Instrs[0], r, bar, nil) {
+				return false
+			}
+		}
+		return true
+	}
+	for _, b := range fn.Blocks {
+		for _, in := range b.Instrs {
+			if call, ok := in.(*ssa.Call); ok {
+				if sc := call.Call.StaticCallee(); sc != nil && sc != fn && chargesAlways(sc, 0) {
+					charges[b] = true
+				}
+			}
+		}
+	}
+	n := 0
+	for _, h := range fn.Blocks {
+		// a loop header over the argument pairs: carries an integer φ with a constant step
+		isHeader := false
+		for _, in := range h.Instrs {
+			ph, ok := in.(*ssa.Phi)
+			if !ok {
+				break
+			}
+			for _, ed := range ph.Edges {
+				if bo, ok := ed.(*ssa.BinOp); ok && bo.Op == token.ADD && bo.X == ssa.Value(ph) && isInteger(ph.Type()) {
+					if _, isK := constInt(bo.Y); isK {
+						isHeader = true
+					}
+				}
+			}
+		}
+		if !isHeader {
+			continue
+		}
+		inLoop := func(b *ssa.BasicBlock) bool { return b != h && h.Dominates(b) && blockReaches(b, h, nil) }
+		has := false
+		for b := range charges {
+			if inLoop(b) {
+				has = true
+			}
+		}
+		if !has {
+			continue
+		}
+		n++
+		construct := "pair loop at " + c.P.InstrPos(h.Instrs[0]) + ": every turn adds a PersistPerByte component"
+		skipped := ""
+		for _, s := range h.Succs {
+			if !inLoop(s) && !charges[s] {
+				continue
+			}
+			vis := map[*ssa.BasicBlock]bool{}
+			var walk func(x *ssa.BasicBlock) bool
+			walk = func(x *ssa.BasicBlock) bool {
+				if x == h {
+					return true
+				}
+				if vis[x] || charges[x] {
+					return false
+				}
+				vis[x] = true
+				for _, y := range x.Succs {
+					if walk(y) {
+						return true
+					}
+				}
+				return false
+			}
+			if walk(s) {
+				skipped = "a turn entering at b" + fmt.Sprint(s.Index) + " reaches the next pair without any PersistPerByte component having been added"
+			}
+		}
+		if skipped == "" {
+			c.OK(rule, FuncName(fn), construct, c.P.InstrPos(h.Instrs[0]), "the persist charge lies on every path through a turn")
+		} else {
+			c.FailX(Oblig{Rule: rule, Func: FuncName(fn), Construct: construct, Pos: c.P.InstrPos(h.Instrs[0]), Kind: "violation",
+				Detail:   skipped + ": a listed pair (e.g. one whose value equals the stored one) is not charged its documented persist price, so a successful call consumes less than the schedule says",
+				Expected: "useGas += (len(key)+len(value)) * PersistPerByte for every listed pair, before any shortcut"})
+		}
+	}
+	if n == 0 {
+		c.Anchor(rule, "the pair loop of SaveKeyValue with its persist charge")
+	}
+}
